@@ -6,7 +6,6 @@ import (
 	"fmt"
 	"math"
 	"net"
-	"reflect"
 	"sort"
 	"strings"
 
@@ -94,8 +93,16 @@ func keysOf(m map[string]any) []string {
 }
 
 func sameKeys(m map[string]any, name string) string {
-	if got, want := keysOf(m), golden[name]; !reflect.DeepEqual(got, want) {
-		return fmt.Sprintf("%s: keys %v, published %v", name, got, want)
+	// every published field name is there (a field added next to them does not un-publish anything)
+	got := keysOf(m)
+	have := map[string]bool{}
+	for _, k := range got {
+		have[k] = true
+	}
+	for _, k := range golden[name] {
+		if !have[k] {
+			return fmt.Sprintf("%s: published field %q is missing; keys %v, published %v", name, k, got, golden[name])
+		}
 	}
 	return ""
 }
@@ -355,7 +362,28 @@ func chunks(tier string) []chunk {
 	for lo := 0; lo < nr; lo += chunkSize {
 		cs = append(cs, chunk{"rtts", lo})
 	}
+	cs = append(cs, chunk{"sizes", 0})
 	return cs
+}
+
+// sizeDocs: the run lengths of documents whose SIZE is the point (a run as long as the TTL range allows, many runs, totals
+// around and beyond 255 and 65535 hops): the aggregates are sums over everything in the document.
+var sizeDocs = [][]int{{255}, {255, 1}, {200, 56}, {128, 128}, {100, 100, 100}, {30, 30, 30, 30, 30, 30, 30, 30, 30}, {30, 30, 30, 30, 30, 30, 30, 30, 30, 30},
+	{16, 16, 16, 16, 16, 16, 16, 16, 16, 16, 16, 16, 16, 16, 16, 16, 16}, {255, 255, 255}, {1, 255, 2}}
+
+func sizeDoc(i int) []int {
+	if i < len(sizeDocs) {
+		return sizeDocs[i]
+	}
+	if i == len(sizeDocs) {
+		// 258 runs of 255 hops: more than 65535 hops in all
+		l := make([]int, 258)
+		for k := range l {
+			l[k] = 255
+		}
+		return l
+	}
+	return nil
 }
 
 func rttSeq(i int) []float64 {
@@ -422,6 +450,21 @@ func run(tier string, idx int, r *core.ScnResult) {
 			a, b, d := l3[i/(n*n)], l3[(i/n)%n], l3[i%n]
 			doc.Traceroute.Runs = []result.TracerouteRun{mkRun(a, true, false), mkRun(b, true, false), mkRun(d, false, false)}
 			lens = []int{len(a), len(b), len(d)}
+			desc = map[string]any{"kind": c.kind, "index": i}
+		case "sizes":
+			ls := sizeDoc(i)
+			if ls == nil {
+				continue
+			}
+			for ri, n := range ls {
+				list := make([]int, n)
+				for k := range list {
+					list[k] = 1 + (k+ri)%2 // answered hops of two address kinds
+				}
+				doc.Traceroute.Runs = append(doc.Traceroute.Runs, mkRun(list, true, false))
+				lens = append(lens, n)
+			}
+			doc.E2eProbe.RTTs = []float64{1.5, 0, 3}
 			desc = map[string]any{"kind": c.kind, "index": i}
 		case "rtts":
 			s := rttSeq(i)
